@@ -75,6 +75,7 @@ class Check:
         self.explanation = ""
         self.rule_text: dict[str, str] = {}
         self.extra_cov: dict = {}
+        self.floor_failures: list[str] = []
         self.t0 = time.time()
 
     # -- bookkeeping -----------------------------------------------------------
@@ -129,7 +130,9 @@ class Check:
         """vacuity protection: a rule that matches fewer instances than were confirmed
         by hand on the pinned tree means the checker lost its grip on the code."""
         if count < minimum:
-            raise AnalysisError(
+            # deferred: when the run also found a violation the violation is the verdict (the construct the floor
+            # counts may be exactly what was removed); otherwise the run ends as ANALYSIS-ERROR in finish()
+            self.floor_failures.append(
                 f"{self.prop}/{rule}: only {count} {what} matched, expected at least {minimum} "
                 "(anchor moved or checker no longer recognises the construct)"
             )
@@ -157,6 +160,10 @@ class Check:
             else:
                 violations.append(f)
 
+        if self.floor_failures and not violations:
+            raise AnalysisError("; ".join(self.floor_failures))
+        for ff in self.floor_failures:
+            self.notes.append("instance floor not met (a violation was found, which takes precedence): " + ff)
         print(f"[{self.prop}] tier={self.tier} repo={self.repo.root} digest={self.repo.digest()}")
         print(
             f"[{self.prop}] analysed {len(self.modules_used)} modules, {len(self.functions_analysed)} functions; "
